@@ -69,6 +69,31 @@ struct Shared {
     poison_next: AtomicBool,
     /// stress connections served
     quick: AtomicUsize,
+    /// stress connections stay in their service for that many microseconds (so that they overlap)
+    hold_us: AtomicUsize,
+    /// largest number of service futures alive at once on ONE worker thread (measured inside the services)
+    max_live: AtomicUsize,
+}
+
+thread_local! {
+    static LIVE_HERE: std::cell::Cell<usize> = std::cell::Cell::new(0);
+}
+/// counts a service future from its first poll to its end, per worker thread
+struct LiveGuard;
+impl LiveGuard {
+    fn new(sh: &Shared) -> Self {
+        let n = LIVE_HERE.with(|c| {
+            c.set(c.get() + 1);
+            c.get()
+        });
+        sh.max_live.fetch_max(n, Ordering::SeqCst);
+        LiveGuard
+    }
+}
+impl Drop for LiveGuard {
+    fn drop(&mut self) {
+        LIVE_HERE.with(|c| c.set(c.get().saturating_sub(1)));
+    }
 }
 
 /// captured by a service instance: its destructor takes `ms` milliseconds (a service that has something to tear down)
@@ -89,6 +114,7 @@ impl Drop for SlowDrop {
 }
 
 async fn serve<S: AsyncReadExt + Unpin>(mut stream: S, tag: &'static str, sh: Arc<Shared>) -> Result<(), ()> {
+    let _live = LiveGuard::new(&sh);
     let mut b = [0u8; 1];
     if stream.read_exact(&mut b).await.is_err() {
         return Ok(());
@@ -99,6 +125,10 @@ async fn serve<S: AsyncReadExt + Unpin>(mut stream: S, tag: &'static str, sh: Ar
         return Ok(());
     }
     if c == QUICK {
+        let hold = sh.hold_us.load(Ordering::SeqCst);
+        if hold > 0 {
+            tokio::time::sleep(Duration::from_micros(hold as u64)).await;
+        }
         sh.quick.fetch_add(1, Ordering::SeqCst);
         return Ok(());
     }
@@ -124,6 +154,8 @@ pub fn run_scenario(sc: &Value, dir: &str) -> Vec<Value> {
         factories: AtomicUsize::new(0),
         poison_next: AtomicBool::new(false),
         quick: AtomicUsize::new(0),
+        hold_us: AtomicUsize::new(0),
+        max_live: AtomicUsize::new(0),
     });
     let uds_path = format!("{dir}/{}.sock", sc["name"].as_str().unwrap_or("x"));
     let _ = std::fs::remove_file(&uds_path);
@@ -273,6 +305,7 @@ pub fn run_scenario(sc: &Value, dir: &str) -> Vec<Value> {
                 let threads = st["threads"].as_u64().unwrap_or(8) as usize;
                 let each = st["each"].as_u64().unwrap_or(200) as usize;
                 let before = sh.quick.load(Ordering::SeqCst);
+                sh.hold_us.store(st["hold_us"].as_u64().unwrap_or(0) as usize, Ordering::SeqCst);
                 // "both": odd client threads use listener b (UDS or the second TCP listener);
                 // "toggle_ms": meanwhile the server is paused and resumed every that many milliseconds (ends resumed)
                 let both = st["both"].as_bool().unwrap_or(false);
@@ -339,6 +372,7 @@ pub fn run_scenario(sc: &Value, dir: &str) -> Vec<Value> {
                 }
                 let ok = wait_until(Duration::from_secs(5), || sh.quick.load(Ordering::SeqCst) >= before + sent);
                 res["sent"] = json!(sent);
+                res["maxLive"] = json!(sh.max_live.load(Ordering::SeqCst));
                 res["served"] = json!(sh.quick.load(Ordering::SeqCst) - before);
                 // (a phase cut short by its deadline has not shown that every connection is served)
                 res["ok"] = json!(ok && sent == threads * each);
@@ -462,6 +496,7 @@ pub fn project(run: usize, sc: &Value, events: &[Value]) -> Vec<Value> {
             "stepOk": e.get("ok").and_then(|o| o.as_bool()).unwrap_or(true),
             "stepDo": e.get("do").and_then(|d| d.as_str()).unwrap_or(""),
             "factoriesA": factories.get("a").cloned().unwrap_or(0), "poisoned": poisoned, "died": died,
+            "stressMaxLive": e.get("maxLive").and_then(|m| m.as_u64()).unwrap_or(0),
             "workers": sc["workers"].as_u64().unwrap_or(1), "raw": e}));
     }
     out
